@@ -228,7 +228,18 @@ func runCA(c *caCase, b *built, link xcv) (*outcome, string) {
 			return o, fmt.Sprintf("prior BAC failed: %v", err)
 		}
 	}
-	if err := o.doc.NewDG(14, b.dg14); err != nil {
+	dg14 := b.dg14
+	if len(c.ChipSeed) > 2 && c.ChipSeed[2]&1 == 1 {
+		// as a reader does: DG14 is READ from the chip over the session, and it is the last file
+		// touched before Chip Authentication starts (so it is the currently selected file)
+		data, err := o.nfc.ReadFile(0x010E)
+		if err != nil || data == nil {
+			return o, fmt.Sprintf("reading DG14 over the prior session failed: %v", err)
+		}
+		dg14 = data
+		evid.Count("dg14-read-over-session-before-ca", 1)
+	}
+	if err := o.doc.NewDG(14, dg14); err != nil {
 		return o, "library rejects the generated DG14: " + err.Error()
 	}
 	o.res, o.err = chipauth.NewChipAuth(o.nfc, o.doc).DoChipAuth()
@@ -259,11 +270,13 @@ func checkGenuine(c *caCase, b *built, o *outcome) string {
 	if string(b.chip.SM.Cipher) != string(b.cipher) {
 		return fmt.Sprintf("CA ran with suite %s, expected %s", b.chip.SM.Cipher, b.cipher)
 	}
-	// counter restarted: after the probe exchange both sides are at 2
-	two := make([]byte, len(lsm.SSC()))
-	two[len(two)-1] = 2
-	if !bytes.Equal(lsm.SSC(), b.chip.SM.SSC) || !bytes.Equal(lsm.SSC(), two) {
-		return fmt.Sprintf("counter after CA + probe: library %x chip %x, expected %x", lsm.SSC(), b.chip.SM.SSC, two)
+	// counter restarted, and success was CONFIRMED by at least one exchange under the new keys (a
+	// success report that rests on no protected exchange proves nothing about the chip's key): both
+	// sides hold the same small even counter >= 2 (how many confirming exchanges there are is the
+	// library's business)
+	ctr := new(big.Int).SetBytes(lsm.SSC())
+	if !bytes.Equal(lsm.SSC(), b.chip.SM.SSC) || ctr.Cmp(big.NewInt(2)) < 0 || ctr.Cmp(big.NewInt(16)) > 0 || ctr.Bit(0) != 0 {
+		return fmt.Sprintf("counter after a successful CA: library %x chip %x, expected a restarted counter after at least one confirming exchange (2, 4, ...)", lsm.SSC(), b.chip.SM.SSC)
 	}
 	// following traffic runs under the new keys
 	data, err := o.nfc.ReadFile(0x010E)
